@@ -243,6 +243,30 @@ Theorem C04_announcements_in_histories : forall c evs ev e A T,
                          snd (node_step c (node_run c evs) ev) = [EReturnPeer A T])).
 Proof. exact node_announcements. Qed.
 Print Assumptions C04_announcements_in_histories.
+(* A refused inbound handshake evicts the remote, on whichever of its transport connections it ran:
+   ClosePeer closes ALL connections of the peer id, so an entry that an earlier admissible handshake
+   created (possibly on another, still open connection) is gone afterwards, the notifier is told
+   Disconnected for it, and nothing is announced.  "Every other transcript ends with the connection
+   refused and no peer registered" -- also for a peer that had been enrolled before. *)
+Theorem C04_refusal_evicts : forall c evs o wf sc hn cl,
+  (forall A T, ~ resp_ok c o wf sc A T) ->
+  let ev := EvInbound o wf sc hn cl in
+  let eff := snd (node_step c (node_run c evs) ev) in
+  node_run c (evs ++ [ev]) = None /\
+  In EClosePeer eff /\
+  (forall a t, node_run c evs = Some (a, t) -> In (ENotifyGone a t) eff) /\
+  (forall e, In e eff -> announces e = false).
+Proof. exact refusal_evicts. Qed.
+Print Assumptions C04_refusal_evicts.
+
+(* Connect runs a handshake only when there is no entry; refused, there is none afterwards either. *)
+Theorem C04_refusal_outbound_leaves_nothing : forall c evs o wf sc cl,
+  node_run c evs = None -> (forall A T, ~ init_ok c o wf sc A T) ->
+  let ev := EvConnect o wf sc cl in
+  node_run c (evs ++ [ev]) = None /\ In EClosePeer (snd (node_step c (node_run c evs) ev)).
+Proof. exact refusal_outbound_leaves_nothing. Qed.
+Print Assumptions C04_refusal_outbound_leaves_nothing.
+
 (* That handshake.Service itself keeps nothing between handshakes is the shape of the model ([handle] and
    [handshake] have no state argument), not a theorem; it is what the driver's session classes test (a
    prelude of handshakes on one long-lived Service, registry answers changing in between). *)
